@@ -147,14 +147,7 @@ public:
       *bufferEnd = 0;
   }
 
-  void append(const Buffer& data)
-  {
-    usize size = data.bufferEnd - data.bufferStart;
-    resize(bufferEnd - bufferStart + size);
-    Memory::copy(bufferEnd - size, data.bufferStart, size);
-    if(buffer)
-      *bufferEnd = 0;
-  }
+  void append(const Buffer& data) {append(data.bufferStart, data.bufferEnd - data.bufferStart);} // (copes with data attached to this buffer's own bytes)
 
   void resize(usize size)
   {
